@@ -17,6 +17,7 @@ import (
 	"sync"
 	"time"
 
+	"github.com/hugelgupf/p9/linux"
 	"github.com/hugelgupf/p9/p9"
 
 	"verifharness/peer"
@@ -27,11 +28,17 @@ type input struct {
 	Name    string     `json:"name"`
 	Callers int        `json:"callers"`
 	Scripts [][][2]any `json:"scripts"`
+	// Burst: consecutive Answer / Refuse stimuli are written to the client in ONE piece (after the
+	// last of the run), so that the replies are read back to back; the stimuli before the last
+	// one of a run are recorded as unobserved
+	Burst bool `json:"burst"`
 }
 
 type obs struct {
 	Callers []int `json:"callers"`
 	Wire    []int `json:"wire"`
+	// Unobserved: the stimulus was buffered (burst mode); nothing was observed after it
+	Unobserved bool `json:"unobserved,omitempty"`
 }
 
 type result struct {
@@ -229,10 +236,26 @@ func run(t *wirecodec.Table, in *input, si int, quiet time.Duration) (*result, e
 		}
 	}
 
-	for _, st := range in.Scripts[si] {
+	// burst mode: out() buffers a reply frame if the next stimulus is another Answer / Refuse (and
+	// reports true: nothing to observe yet); otherwise it writes everything buffered in one piece
+	var pend []byte
+	script := in.Scripts[si]
+	out := func(frame []byte, idx int) bool {
+		pend = append(pend, frame...)
+		if in.Burst && idx+1 < len(script) {
+			if nk := script[idx+1][0].(string); nk == "Answer" || nk == "Refuse" {
+				res.Obs = append(res.Obs, obs{Unobserved: true})
+				return true
+			}
+		}
+		toCli.Write(pend)
+		pend = nil
+		return false
+	}
+	for si2, st := range in.Scripts[si] {
 		kind := st[0].(string)
 		arg := int(st[1].(float64))
-		if kind == "Answer" || kind == "badtype" || kind == "badbody" || kind == "cut" {
+		if kind == "Answer" || kind == "Refuse" || kind == "badtype" || kind == "badbody" || kind == "cut" {
 			wmu.Lock()
 			n := len(wire)
 			wmu.Unlock()
@@ -254,7 +277,11 @@ func run(t *wirecodec.Table, in *input, si int, quiet time.Duration) (*result, e
 			go func() {
 				qids, f, err := root.Walk([]string{fmt.Sprintf("c%d", id)})
 				smu.Lock()
-				if err != nil {
+				var le linux.Errno
+				if err != nil && errors.As(err, &le) && le >= 300 && le < 400 {
+					// refused by the server with the errno made for request (le - 300): MC_Client's 100 + (1000 + id)
+					state[k] = 1100 + int(le-300)
+				} else if err != nil {
 					state[k] = -1
 				} else {
 					keep = append(keep, f)
@@ -273,7 +300,17 @@ func run(t *wirecodec.Table, in *input, si int, quiet time.Duration) (*result, e
 			answered[arg] = true
 			bound[w.fid] = true
 			wmu.Unlock()
-			toCli.Write(t.Encode("Rwalk", w.tag, wirecodec.Values{"qids": []wirecodec.Values{{"type": 0x80, "path": w.id}}}))
+			if out(t.Encode("Rwalk", w.tag, wirecodec.Values{"qids": []wirecodec.Values{{"type": 0x80, "path": w.id}}}), si2) {
+				continue
+			}
+		case "Refuse":
+			wmu.Lock()
+			w := wire[arg-1]
+			answered[arg] = true
+			wmu.Unlock()
+			if out(t.Encode("Rlerror", w.tag, wirecodec.Values{"ecode": 300 + w.id}), si2) {
+				continue
+			}
 		case "badtype":
 			wmu.Lock()
 			w := wire[arg-1]
